@@ -8,9 +8,10 @@ for f in sorted(glob.glob(os.path.join(ROOT, 'harness', 'props', 'C*.json'))):
     m = json.load(open(f)); metas[os.path.basename(f)[:-5]] = m
 na_path = os.path.join(ROOT, 'harness', 'props', 'not_applicable.json')
 na = json.load(open(na_path)) if os.path.exists(na_path) else {}
+enabled = set(open(os.path.join(ROOT, 'harness', 'props', 'enabled.txt')).read().split())   # properties whose check the coordinator has accepted
 checks = []
 for i in ids:
-    if i not in metas or metas[i].get('disabled'): continue
+    if i not in metas or i not in enabled: continue
     m = metas[i]
     checks.append({
         'property_id': i,
